@@ -22,6 +22,11 @@
 //    the user's additions to the previous result carried over).
 //  VERIF_SKIP_KNOWN=1: a step that would trip one of the KNOWN defect classes (decided by a dry
 //  run of exactly that step in a forked child) is replaced by `c19 noop skipped-known-<class>`.
+//  VERIF_C19_EXTRA=6|7|8 (not part of a check run): replays ONE fixed history that violates a hypothesis of
+//  the Lean theorem no_stale_done_repaired (X6: TriggerOpen of an open document with a pending change,
+//  X7: a new document under the name of a destroyed one, X8: a loaded document with the two connections of
+//  a child swapped) — the closed counterexamples of no_stale_done_hypotheses_needed; pipe the op lines through
+//  ccdriver to compare the implementation with the model.
 #include "common.hpp"
 #include "verif_seed.hpp"
 #include "ccl/oss/OSSchema.h"
@@ -786,6 +791,43 @@ struct Hist {
     report(w);
   }
 
+  // --- steps outside the contract of the manager / of to_json: only used by VERIF_C19_EXTRA (hypotheses of
+  //     no_stale_done_repaired: admissibleStep)
+  void reopenOpen(VSource& s) {
+    beginStep(w);
+    s.TriggerOpen();
+    out("c19 open " + std::to_string(s.id) + " " + brokenMap(w), "ok");
+    report(w);
+  }
+  void newSrcNamed(int id) {
+    beginStep(w);
+    auto* s = g_mgr->CreateNew(src::Descriptor{ src::SrcType::rsDoc, VManager::nameOf(id) });
+    auto& vs = VManager::Cast(*s);
+    vs.schema.Emplace(CstType::base); vs.schema.Emplace(CstType::term, "X1");
+    vs.TriggerSave();
+    out("c19 newsrc " + std::to_string(vs.id) + " " + std::to_string(w.hid(vs.schema.CoreHash())), "ok");
+    report(w);
+  }
+  void reloadSwapped(PictID child) {
+    for (auto& s : g_mgr->sources) if (s.open && !s.saved) announce(s);
+    beginStep(w);
+    JSON doc = *w.oss;
+    auto edges = doc["connections"].get<std::vector<std::pair<PictID, PictID>>>();
+    std::vector<size_t> idx;
+    for (size_t i = 0; i < edges.size(); ++i) if (edges[i].first == child) idx.push_back(i);
+    if (idx.size() == 2) std::swap(edges[idx[0]], edges[idx[1]]);
+    doc["connections"] = edges;
+    std::string order, eorder;
+    for (const auto& it : doc["items"]) { if (!order.empty()) order += ","; order += std::to_string(it.at("pictUID").get<PictID>()); }
+    for (const auto& e : edges) { if (!eorder.empty()) eorder += ","; eorder += std::to_string(e.first) + ">" + std::to_string(e.second); }
+    const std::string text = doc.dump();
+    w.oss.reset();
+    w.oss = std::make_unique<OSSchema>();
+    JSON::parse(text).get_to(*w.oss);
+    out("c19 reload " + order + " " + eorder, "ok");
+    report(w);
+  }
+
   PictID baseWithSource() {
     const auto p = insBase();
     connect(p, newSrc(rng.range(0, 2)));
@@ -896,6 +938,12 @@ static void history(vh::Rng& rng, int L, const std::string& variant) {
       auto& sx = h.newSrc(1); h.init(c, ops::Type::rsSynt, 1); h.connect(c, sx); h.exec(c, false); h.exec(c, true);
     } else if (L == -4) {     // the same through ExecuteAll on a diamond loaded child-first
       h.addTerm(sa); h.reload(); h.execAll();
+    } else if (L == -6) {     // X6 (outside the manager contract): TriggerOpen of an OPEN document with a pending change
+      h.addTerm(sa); h.reopenOpen(sa);
+    } else if (L == -7) {     // X7 (outside the contract): a new document under the name of a destroyed one
+      const int id = sd.id; h.destroy(sd); h.newSrcNamed(id);
+    } else if (L == -8) {     // X8 (not a document produced by to_json): the two connections of a child swapped
+      h.reloadSwapped(c);
     }
   } else {
     h.setup();
@@ -969,6 +1017,13 @@ int main() {
   const bool deep = vh::thorough();
   if (const char* s = std::getenv("VERIF_SKIP_KNOWN"); s != nullptr && std::string(s) == "1") g_skipKnown = true;
   const std::string variant = probeVariant();
+  if (const char* x = std::getenv("VERIF_C19_EXTRA"); x != nullptr) {
+    // replay of one history that violates a hypothesis of the freshness theorem (not part of a check run)
+    const int k = std::atoi(x);
+    vh::Rng sub(static_cast<uint64_t>(k));
+    vh::forkedEmit([&] { ccl::verif::Seed(static_cast<uint32_t>(k)); history(sub, -k, variant); }, "c19 crash", 300);
+    return 0;
+  }
   const int H = deep ? 2000 : 300, L = deep ? 30 : 20;
   for (int k = 1; k <= 5; ++k) {
     vh::Rng sub(static_cast<uint64_t>(k));
